@@ -2,7 +2,7 @@
    harness (Rust, real code) and this model decode it the same way and print a
    canonical text result. The case reader is the Buffer model itself. *)
 From GD Require Import Base.Prelude Model.Strings Model.Buffer Model.Unreal2Str Model.BufOps.
-From GD Require Import Model.Net Model.Valve Model.ValveShow Model.Master.
+From GD Require Import Model.Net Model.Valve Model.ValveShow Model.Master Model.Settings.
 From GD Require Import Spec.Rand Spec.ValveSpec Spec.ValveGen Spec.CaseEnc Spec.MasterSpec.
 
 Definition rd_u8 : R N := read_uint true 1.
@@ -156,7 +156,8 @@ Definition case_valve : R bytes :=
   let* nb := rd_u8 in
   let* bzt := rd_list (N.to_nat nb) rd_bz_entry in
   match ts with
-  | Ok t => ret (show_query show_response (Valve.query (bz_lookup bzt) port e g t n))
+  | Ok t => if 1000000 <? ts_retries_or_default t then ret (str "MODEL-ABSTAINS")
+            else ret (show_query show_response (Valve.query (bz_lookup bzt) port e g t n))
   | o => ret (show_outcome (fun _ => []) o ++ str "|")
   end.
 
@@ -260,6 +261,34 @@ Definition case_spec_denote : R bytes :=
   ret (show_option (fun g => show_pairs (gr_plain g) ++ str "/" ++ show_pairs (gr_nand g) ++ str "/" ++ show_pairs (gr_nor g))
          (denote fb)).
 
+(* family 18: construct timeout settings by one of the public paths, then use
+   them for a Valve query *)
+Definition rd_path : R path :=
+  let* t := rd_u8 in
+  if t =? 0 then
+    let* r := rd_opt rd_dur in let* w := rd_opt rd_dur in let* c := rd_opt rd_dur in let* n := rd_u64 in ret (PNew r w c n)
+  else if t =? 1 then ret PDefault
+  else if t =? 2 then
+    let* c := rd_opt rd_bytes16 in let* r := rd_opt rd_bytes16 in let* w := rd_opt rd_bytes16 in
+    let* n := rd_opt rd_bytes16 in ret (PClap c r w n)
+  else
+    let* c := rd_opt rd_dur in let* r := rd_opt rd_dur in let* w := rd_opt rd_dur in let* n := rd_u64 in ret (PSerde c r w n).
+Definition show_ts (t : option tsettings) : bytes :=
+  show_option (fun s => str "c" ++ show_option show_dur (ts_connect s) ++ str "r" ++ show_option show_dur (ts_read s)
+                        ++ str "w" ++ show_option show_dur (ts_write s) ++ str "n" ++ show_N (ts_retries s)) t.
+Definition model_abstains : bytes := str "MODEL-ABSTAINS".
+Definition case_settings : R bytes :=
+  let* p := rd_path in
+  let* port := rd_u16 in
+  let* n := rd_script in
+  match construct p with
+  | Ok t =>
+      if 1000000 <? ts_retries_or_default t then ret model_abstains
+      else ret (str "Ok(" ++ show_ts t ++ str ")" ++ str ";"
+                ++ show_query show_response (Valve.query (bz_lookup []) port (Source None) None t n))
+  | o => ret (show_outcome (fun _ => []) o ++ str ";")
+  end.
+
 Definition run_case_R : R bytes :=
   let* fam := rd_u8 in
   if fam =? 1 then case_bufops
@@ -271,6 +300,7 @@ Definition run_case_R : R bytes :=
   else if fam =? 7 then case_string_rt
   else if fam =? 10 then case_valve
   else if fam =? 16 then case_master
+  else if fam =? 18 then case_settings
   else if fam =? 110 then case_spec_valve
   else if fam =? 116 then case_spec_master
   else if fam =? 117 then case_spec_denote
